@@ -550,6 +550,35 @@ impl<'borrow, B: Backend> HipByt<'borrow, B> {
     }
 }
 
+/// Verification hooks.
+#[cfg(hipstr_verif)]
+impl<B: Backend> HipByt<'_, B> {
+    /// Returns the heap representation details if allocated, see
+    /// `Allocated::verif_repr`.
+    pub fn verif_repr(&self) -> Option<[usize; 7]> {
+        match self.split() {
+            Split::Allocated(allocated) => Some(allocated.verif_repr()),
+            _ => None,
+        }
+    }
+
+    /// Forces the stored share counter of the owner if allocated.
+    pub fn verif_force_count(&self, stored: usize) -> bool {
+        match self.split() {
+            Split::Allocated(allocated) => {
+                allocated.verif_force_count(stored);
+                true
+            }
+            _ => false,
+        }
+    }
+
+    /// Returns the first (tag) byte of the representation.
+    pub fn verif_tag_byte(&self) -> u8 {
+        self.pivot.tag_byte.get()
+    }
+}
+
 impl<B: Backend> Drop for HipByt<'_, B> {
     #[inline]
     fn drop(&mut self) {
